@@ -171,6 +171,15 @@ func c03Subjects() []c03Subject {
 				h.Total, h.Number = 2, 1
 			}
 			frames = append(frames, ref.Encode(h, []byte{0x7E, 0x01, 0x7D, 0x02}), ref.Encode(h, nil))
+			// escape-free frames of equal length from two different phones (the decoder's fast path aliases its input)
+			for _, ph := range []string{"13800138000", "14419999999"} {
+				h2 := ref.TermHeader(0x0200, v19, ph, 8)
+				h2.Fragmented = frag
+				if frag {
+					h2.Total, h2.Number = 2, 1
+				}
+				frames = append(frames, ref.Encode(h2, []byte{0x11, 0x22, 0x33, 0x44}))
+			}
 		}
 	}
 	out = append(out, c03Subject{Name: "jt808.JTMessage.Decode", New: func() any { return jt808.NewJTMessage() },
@@ -525,6 +534,40 @@ func c03Eval(s *c03Subject, body []byte, history [][]byte) (sig, diag, class str
 			return c03Type(s.Name) + ":history-state:" + f, fmt.Sprintf("result depends on what the receiver parsed before (%s after %s%s): field %s differs\n fresh:  %s\n reused: %s", where, hx(history[len(history)-1]), how, f, c03Short(o.dump), c03Short(r.dump)), "history"
 		}
 	}
+	// history on ONE receiver through ONE re-used buffer (the read buffer of a connection): the earlier bodies are
+	// overwritten in place by the later ones, so anything the receiver still aliases from an earlier parse changes under it
+	if len(history) > 0 {
+		maxLen := len(body)
+		for _, h := range history {
+			if len(h) > maxLen {
+				maxLen = len(h)
+			}
+		}
+		shared := make([]byte, maxLen)
+		recv := s.New()
+		bad := false
+		for _, h := range history {
+			n := copy(shared, h)
+			if p := vc.Catch(func() { _ = s.Parse(recv, shared[:n:n]) }); p != "" {
+				bad = true
+				break
+			}
+		}
+		if !bad {
+			n := copy(shared, body)
+			r := c03Run1(s, recv, shared[:n:n], false)
+			if r.panic != "" {
+				return c03Type(s.Name) + ":shared-buffer-panic:" + vc.PanicSite(r.panic), fmt.Sprintf("a receiver fed %d earlier bodies through one re-used buffer panics on %s: %s", len(history), where, r.panic), "history"
+			}
+			if r.err != o.err || (r.err == "" && r.dump != o.dump) {
+				f := ""
+				if r.err == "" && o.err == "" {
+					f = c03Trunc(c03DiffPath(reflect.ValueOf(o.recv), reflect.ValueOf(r.recv), "", 0))
+				}
+				return c03Type(s.Name) + ":shared-buffer-state:" + f, fmt.Sprintf("receiver and read buffer both re-used (%s after %s in the same buffer): fresh err=%q, re-used err=%q, field %s differs\n fresh:  %s\n reused: %s", where, hx(history[len(history)-1]), o.err, r.err, f, c03Short(o.dump), c03Short(r.dump)), "history"
+			}
+		}
+	}
 	if o.err != "" {
 		return "", "", "rejected"
 	}
@@ -542,7 +585,7 @@ func init() {
 	vc.Register(&vc.Check{
 		ID: "C03", Level: "exploration",
 		Rule: "subjects: Parse(+String) of every exported message type x header version {2013,2019} x the five dialects for 0x1210/0x9208, 0x0200 with the five vendor extension parsers installed, jt808 Decode, jt1078 Decode. Per subject: " +
-			"(0) every seed body on a fresh receiver before and after the whole run (state outside the receiver); (a) ALL byte strings of length 0..6 over {00,01,02,FF} and 0..4 over a 10-symbol alphabet of counts and item/parameter IDs; (b) after EVERY truncation point of every seed body, all suffixes of length 0..2 (thorough 3) over {00,01,02,05,31,FF}; " +
+			"(0) every seed body on a fresh receiver before and after the whole run (state outside the receiver); every history also through ONE re-used buffer; all strings over {00,0A,A0,AA,59} in the six BCD time bytes of location blocks; (a) ALL byte strings of length 0..6 over {00,01,02,FF} and 0..4 over a 10-symbol alphabet of counts and item/parameter IDs; (b) after EVERY truncation point of every seed body, all suffixes of length 0..2 (thorough 3) over {00,01,02,05,31,FF}; " +
 			"(c) for every seed: every single-byte substitution by a 25-value menu of boundary values, counts and item IDs (thorough: all 256 values), every pair of substitutions from {00,01,FF} at positions where a single substitution changed the outcome (found by the run), every extension by 1..3 bytes; " +
 			"(d) history independence: every ordered pair (and every triple of a 5-body menu) of seed/mutated bodies on one receiver compared with a fresh receiver. Each case runs on an exact-capacity slice and on two buffers with differently poisoned tails. " +
 			"Seeds are the valid bodies found in the repository's own test files plus harness samples. Non-trivial = the body parses successfully or differs from a seed in <=2 bytes",
@@ -762,6 +805,21 @@ func c03Run(ctx *vc.Ctx, rep *vc.Report) {
 						g[pos] = v
 						try(g, nil, true)
 					}
+				}
+			}
+		}
+		// (e) the six BCD time bytes of a location block: every string over {00,0A,A0,AA,59} (nibbles above 9 are rendered
+		// as punctuation, which the re-encoding used by String() strips again)
+		if off := map[uint16]int{0x0200: 22, 0x0704: 27, 0x0801: 30}[s.ID]; off > 0 {
+			tsp := newStrSpace([]byte{0x00, 0x0A, 0xA0, 0xAA, 0x59}, 6)
+			for k, seed := range s.Seeds {
+				if k >= 2 || len(seed) < off+6 {
+					continue
+				}
+				for i := tsp.starts[6]; i < tsp.total; i++ {
+					g := append([]byte(nil), seed...)
+					copy(g[off:], tsp.at(i, buf))
+					try(g, nil, true)
 				}
 			}
 		}
